@@ -360,9 +360,13 @@ def oracle_c14(tr: Trace):
                 # notice of cancellation, judged from what the receiver emits (not from its own bookkeeping): from the next
                 # call on nothing is requested any more, and the first Finished PDU reports this condition to the peer
                 queued = f.get("qlen", 0)       # PDUs of this very call, possibly queued before the fault was declared
-                for s2 in tr.steps[k + 1:]:
+                over = f["state"] == 0 and queued == 0      # cancelled and completed in this very call: nothing follows
+                for s2 in ([] if over else tr.steps[k + 1:]):
                     if s2.tag in (3, 4, 8) or (s2.tag == 7 and s2.op[1] == 2):
                         break
+                    if s2.tag in (0, 1) and s2.ob["fields"]["state"] == 1 and \
+                            (s2.ob["fields"]["tid_src"], s2.ob["fields"]["tid_seq"]) != (src, seq):
+                        break       # the handler is busy with another transaction by now
                     if s2.tag in (0, 1) and any(x[0] == 14 for x in s2.ob["events"]):
                         break
                     if s2.tag == 2 and s2.ob["ret"] == 1:
